@@ -38,14 +38,22 @@ def run_with_scenarios(mod, ctx):
     # observed cost, inside the watchdog limit of the tier)
     budget = max(float(os.environ.get("VERIF_ALT_BUDGET", "60")), (MAX_ALTS + 2) * t_generic)
     t_alt0 = _t.time()
-    for alt in alts[MAX_ALTS:]:
-        skipped.append(f"{_alt_label(alt)}: more than {MAX_ALTS} alternative scenarios")
-    for alt in alts[:MAX_ALTS]:
+    queue = [(a, 1) for a in alts]
+    done = 0
+    while queue:
+        alt, depth = queue.pop(0)
+        if done >= MAX_ALTS:
+            skipped.append(f"{_alt_label(alt)}: more than {MAX_ALTS} alternative scenarios")
+            continue
         if _t.time() - t_alt0 > budget:
             skipped.append(f"{_alt_label(alt)}: time budget for alternative scenarios exhausted")
             continue
+        done += 1
         S.mode = "alt"
         S.force_sites = frozenset([alt[1]]) if alt[0] == "force" else frozenset()
+        S.zero_atoms = frozenset(alt[1]) if alt[0] == "zero" else frozenset()
+        S.depth = depth
+        S.nested = []
         set_zero_atoms(alt[1] if alt[0] == "zero" else ())
         sub = Ctx(ctx.prop, ctx.tier, ctx.root, ctx.seed, ctx.jobs)
         sub._program = ctx._program
@@ -57,7 +65,13 @@ def run_with_scenarios(mod, ctx):
             continue
         finally:
             S.force_sites = frozenset()
+            S.zero_atoms = frozenset()
             set_zero_atoms(())
+            for a2 in S.nested:
+                if a2 not in [q[0] for q in queue] and a2 not in alts:
+                    queue.append((a2, depth + 1))
+                    alts.append(a2)
+            S.nested = []
         ctx.obligations.extend(sub.obligations)
         for f in sub.findings:
             if f.key() not in {g.key() for g in ctx.findings}:
